@@ -1693,19 +1693,19 @@ Qed.
 Lemma ctl_step_meta A B c st : map rmeta A = map rmeta B -> cf_ctl_step A c st = cf_ctl_step B c st.
 Proof.
   intro H. destruct c as [[n|a b]|t|m|sp v k|t v k|m v k]; cbn [cf_ctl_step]; try reflexivity.
-  - rewrite (ids_where_meta' _ (fun x => mem_bytes t (snd (fst x))) A B (fun _ => eq_refl) H). reflexivity.
-  - rewrite (ids_where_meta' _ (fun x => opt_bytes_is (snd x) m) A B (fun _ => eq_refl) H). reflexivity.
-  - rewrite (ids_where_meta' _ (fun x => spec_has sp (fst (fst x))) A B (fun _ => eq_refl) H). reflexivity.
-  - rewrite (ids_where_meta' _ (fun x => mem_bytes t (snd (fst x))) A B (fun _ => eq_refl) H). reflexivity.
-  - rewrite (ids_where_meta' _ (fun x => opt_bytes_is (snd x) m) A B (fun _ => eq_refl) H). reflexivity.
+  - rewrite (ids_where_meta' (fun r => mem_bytes t (cl_tags (cr_head r))) (fun x => mem_bytes t (snd (fst x))) A B (fun _ => eq_refl) H). reflexivity.
+  - rewrite (ids_where_meta' (fun r => opt_bytes_is (cl_msg (cr_head r)) m) (fun x => opt_bytes_is (snd x) m) A B (fun _ => eq_refl) H). reflexivity.
+  - rewrite (ids_where_meta' (fun r => spec_has sp (cr_id r)) (fun x => spec_has sp (fst (fst x))) A B (fun _ => eq_refl) H). reflexivity.
+  - rewrite (ids_where_meta' (fun r => mem_bytes t (cl_tags (cr_head r))) (fun x => mem_bytes t (snd (fst x))) A B (fun _ => eq_refl) H). reflexivity.
+  - rewrite (ids_where_meta' (fun r => opt_bytes_is (cl_msg (cr_head r)) m) (fun x => opt_bytes_is (snd x) m) A B (fun _ => eq_refl) H). reflexivity.
 Qed.
 
 Lemma tgt_ids_meta A B c : map rmeta A = map rmeta B -> tgt_ids A c = tgt_ids B c.
 Proof.
   intro H. destruct c as [| | |sp v k|t v k|m v k]; cbn [tgt_ids]; try reflexivity.
-  - rewrite (ids_where_meta' _ (fun x => spec_has sp (fst (fst x))) A B (fun _ => eq_refl) H). reflexivity.
-  - rewrite (ids_where_meta' _ (fun x => mem_bytes t (snd (fst x))) A B (fun _ => eq_refl) H). reflexivity.
-  - rewrite (ids_where_meta' _ (fun x => opt_bytes_is (snd x) m) A B (fun _ => eq_refl) H). reflexivity.
+  - rewrite (ids_where_meta' (fun r => spec_has sp (cr_id r)) (fun x => spec_has sp (fst (fst x))) A B (fun _ => eq_refl) H). reflexivity.
+  - rewrite (ids_where_meta' (fun r => mem_bytes t (cl_tags (cr_head r))) (fun x => mem_bytes t (snd (fst x))) A B (fun _ => eq_refl) H). reflexivity.
+  - rewrite (ids_where_meta' (fun r => opt_bytes_is (cl_msg (cr_head r)) m) (fun x => opt_bytes_is (snd x) m) A B (fun _ => eq_refl) H). reflexivity.
 Qed.
 
 Lemma rwT_meta ids v e rs : map rmeta (map (rwT ids v e) rs) = map rmeta rs.
